@@ -83,8 +83,12 @@ def main():
                 kind = rng.random()
                 if kind < 0.08:
                     lines.append(f'a{i},b')                    # too few fields
-                elif kind < 0.12:
+                elif kind < 0.10:
                     lines.append(f'a{i},b,c,d')                # too many
+                elif kind < 0.12:
+                    lines.append(str(rng.choice([f'a{i},b,c,', f',a{i},b,c', f'a{i},b,,c', f'a{i},b,', 'a,b,c,,'])))  # surplus EMPTY field / trailing delimiter
+                elif kind < 0.125:
+                    lines.append(f'a{i},,')                    # well-formed row with empty cells
                 elif kind < 0.15:
                     lines.append('')                           # empty line
                 elif kind < 0.18:
